@@ -23,7 +23,7 @@ FLAGS = ["public", "visible", "allow_delete", "allow_move", "allow_rename", "par
 NAMES = ["a", "b", "c", "Ωμ", "x y", "a/b", "d.e", "", "名前", "a"]
 PG_NAMES = ["pg1", "pg2", "pg3"]
 
-MUTATORS = ["group", "object", "data", "values", "rename", "flag", "move", "copy", "remove", "pg_add",
+MUTATORS = ["create_uid", "group", "object", "data", "values", "rename", "flag", "move", "copy", "remove", "pg_add",
             "pg_remove_props", "pg_delete", "metadata", "file", "comment"]
 CONTROL = ["reopen", "gc", "hold", "release", "observe"]
 
@@ -110,6 +110,10 @@ def op_strategy(kind: str, cfg: dict):
                                       "name": st.sampled_from(["f.dat", "g.bin"])})
     if kind == "comment":
         return st.fixed_dictionaries({"op": st.just("comment"), "who": idx, "text": name})
+    if kind == "create_uid":
+        return st.fixed_dictionaries({"op": st.just("create_uid"), "kind": st.sampled_from(["group", "object", "data"]),
+                                      "source": st.sampled_from(["fresh", "live_same", "live_other", "removed", "live_same"]),
+                                      "who": idx, "parent": idx, "name": name})
     if kind in ("reopen", "gc", "release", "observe"):
         return st.just({"op": kind})
     if kind == "hold":
@@ -124,7 +128,7 @@ DEFAULT_CFG = {
     "data_kinds": ["float", "int", "bool", "ref", "text"],
     "weights": {"group": 3, "object": 5, "data": 6, "values": 3, "rename": 2, "flag": 2, "move": 4, "copy": 4,
                 "remove": 4, "pg_add": 4, "pg_remove_props": 2, "pg_delete": 1, "metadata": 1, "file": 1,
-                "comment": 0, "reopen": 3, "gc": 2, "hold": 1, "release": 1, "observe": 1},
+                "comment": 0, "create_uid": 0, "reopen": 3, "gc": 2, "hold": 1, "release": 1, "observe": 1},
     "ws2": True,
     "prefix": [],
 }
@@ -247,6 +251,8 @@ class TreeRun:
                       "op_errors": 0, "removals_rich": 0, "copies": 0, "cross_copies": 0, "moves": 0}
         self.since_reopen_mut = False
         self.mut_before_reopen = False
+        self.targets: set = set()  # entities the current operation is applied to (C09)
+        self.parents: set = set()  # parents whose child list / property groups may change (C09)
 
     # ------------------------------------------------------------------ helpers
     def fail(self, prop, clause, op, cls, cond, msg):
@@ -290,8 +296,11 @@ class TreeRun:
         handler = getattr(self, "op_" + kind)
         pre_hook = self.opts.get("pre_op")
         post_hook = self.opts.get("post_op")
+        self.targets, self.parents = set(), set()
         if kind in MUTATORS and pre_hook:
             pre_hook(self, op)
+        if kind in MUTATORS and "C09" in self.props:
+            self.iso_before = [(set(wd.nodes), node_digests(rawsnap(wd.ws.geoh5))) for wd in self.worlds]
         try:
             effective = handler(op)
         except OpError as exc:
@@ -318,8 +327,13 @@ class TreeRun:
                 self.since_reopen_mut = True
                 if post_hook:
                     post_hook(self, op)
+                if "C09" in self.props:
+                    self.check_isolation(kind)
             if self.program.get("observe") == "every" and kind in MUTATORS:
                 self.observe(kind)
+            if kind in MUTATORS and not self.stopped:
+                for wd in self.worlds:
+                    self.check_uid_invariants(wd, kind)
 
     # ------------------------------------------------------------------ observation
     def observe(self, opkind, world=None):
@@ -451,6 +465,7 @@ class TreeRun:
         parent_uid = self.pick(wd.of_kind("group"), op["parent"])
         parent = wd.entity(parent_uid)
         cls = F.get_class(op["cls"])
+        self.parents.add(parent_uid)
         new = self.call(op["cls"], cls.create, wd.ws, parent=parent, name=op["name"])
         uid = str(new.uid)
         node = snap_entity(new)
@@ -470,6 +485,172 @@ class TreeRun:
         if name is not None and node.get("name") != name:
             self.fail("C01", "created-name", opkind, cls_name, "", f"asked name {name!r}, got {node.get('name')!r}")
 
+    def op_create_uid(self, op):
+        """Creation with a caller-supplied identifier (C06)."""
+        wd = self.w
+        kind = op["kind"]
+        source = op["source"]
+        same = wd.of_kind(kind)
+        other = [u for u in wd.nodes if wd.kind[u] != kind]
+        freed = [g for g in self.removed if g not in wd.nodes]
+        if source == "live_same" and [u for u in same if u != wd.root]:
+            uid = self.pick([u for u in same if u != wd.root], op["who"])
+        elif source == "live_other" and other:
+            uid = self.pick(other, op["who"])
+        elif source == "removed" and freed:
+            uid = self.pick(freed, op["who"])
+        else:
+            source = "fresh"
+            uid = str(env.fresh_uid())
+        taken = uid in wd.nodes
+        if kind == "data":
+            parent_uid = self.pick([o for o in wd.of_kind("object") if wd.nodes[o]["cls"] != "Drillhole"], op["parent"])
+        else:
+            parent_uid = self.pick(wd.of_kind("group"), op["parent"])
+        if parent_uid is None:
+            return False
+        parent = wd.entity(parent_uid)
+        before = apisnap(wd.ws)
+        raw_before = node_digests(rawsnap(wd.ws.geoh5))
+        self.parents.add(parent_uid)
+        self.res.label("create_uid:" + source)
+        raised = None
+        new = None
+        try:
+            if kind == "group":
+                new = F.get_class("ContainerGroup").create(wd.ws, parent=parent, name=op["name"], uid=uuid.UUID(uid))
+            elif kind == "object":
+                new = F.get_class("Points").create(wd.ws, parent=parent, name=op["name"], uid=uuid.UUID(uid),
+                                                   vertices=np.zeros((2, 3)))
+            else:
+                new = parent.add_data({op["name"]: {"values": np.asarray([1.5]), "association": "OBJECT",
+                                                    "uid": uuid.UUID(uid)}})
+        except Exception as exc:
+            # keep no reference to the exception: its traceback would keep the refused entity alive
+            raised = (type(exc).__name__, str(exc)[:200])
+        label = {"group": "ContainerGroup", "object": "Points", "data": "FloatData"}[kind]
+        cond = source + (":" + wd.kind[uid] if taken else "")
+        if taken:
+            if raised is None:
+                self.fail("C06", "taken-uid-accepted", "create_uid", label, cond,
+                          f"creating a {kind} with uid {uid} owned by a live {wd.nodes[uid]['cls']} was accepted: two live entities share an identifier")
+                return True
+            del new, parent
+            gc.collect()
+            after = apisnap(wd.ws)
+            diffs = diff_nodes(before["nodes"], after["nodes"])
+            if diffs:
+                u, f, a, b = diffs[0]
+                self.fail("C06", "refusal-side-effect-tree", "create_uid", label, cond + ":" + str(f),
+                          f"refused creation changed the live tree: {u} {f}: {a!r} -> {b!r}")
+                return True
+            if before["listings"] != after["listings"]:
+                self.fail("C06", "refusal-side-effect-listing", "create_uid", label, cond,
+                          f"refused creation changed the listings: {before['listings']} -> {after['listings']}")
+                return True
+            raw_after = node_digests(rawsnap(wd.ws.geoh5))
+            if raw_before != raw_after:
+                changed = sorted(str(k) for k in set(raw_before) ^ set(raw_after)) or sorted(
+                    str(k) for k in raw_before if raw_before[k] != raw_after.get(k))
+                self.fail("C06", "refusal-side-effect-file", "create_uid", label, cond,
+                          f"refused creation changed the file: {changed[:4]}")
+            return True
+        if raised is not None:
+            try:
+                raise RuntimeError(f"{raised[0]}: {raised[1]}")
+            except RuntimeError as exc:
+                raise OpError(label) from exc
+        nuid = str(new.uid)
+        node = snap_entity(new)
+        if nuid != uid:
+            self.fail("C06", "supplied-uid-ignored", "create_uid", label, cond, f"asked uid {uid}, got {nuid}")
+        if nuid in wd.nodes:
+            self.fail("C06", "fresh-uid-collides", "create_uid", label, cond, f"uid {nuid} already in use")
+            return True
+        wd.adopt(nuid, node, kind)
+        del new, parent
+        return True
+
+    def check_isolation(self, opkind):
+        """C09: a single mutation changes only what the statement allows (per-node split digests)."""
+        for wd, (uids_before, before) in zip(self.worlds, self.iso_before):
+            after = node_digests(rawsnap(wd.ws.geoh5))
+            uids_after = set(wd.nodes)
+            brace = lambda u: "{" + u + "}"  # noqa: E731
+            targets = {brace(u) for u in self.targets}
+            parents = {brace(u) for u in self.parents}
+            born = {brace(u) for u in uids_after - uids_before}
+            died = {brace(u) for u in uids_before - uids_after}
+            n_other = 0
+            for key in sorted(set(before) | set(after), key=str):
+                cname, uid = key
+                is_type = cname.endswith("types")
+                if key not in before:
+                    if is_type or uid in born:
+                        continue
+                    self.fail("C09", "unrelated-node-created", opkind, cname, "", f"{cname}/{uid} appeared in the file")
+                    return
+                if key not in after:
+                    if is_type or uid in died:
+                        continue
+                    self.fail("C09", "unrelated-node-deleted", opkind, cname, "", f"{cname}/{uid} disappeared from the file")
+                    return
+                if before[key] == after[key]:
+                    n_other += 1
+                    continue
+                parts = sorted(p for p in before[key] if before[key][p] != after[key].get(p))
+                if uid in targets or uid in born:
+                    continue
+                if uid in parents and set(parts) <= {"children", "pgs"}:
+                    continue
+                if cname == "header":
+                    self.fail("C09", "header-changed", opkind, "header", ",".join(parts), f"project header changed: {before[key]} -> {after[key]}")
+                    return
+                if is_type:
+                    self.fail("C09", "other-type-changed", opkind, cname, ",".join(parts),
+                              f"type {uid} changed ({parts}): {before[key]} -> {after[key]}")
+                    return
+                cls = (wd.nodes.get(uid[1:-1]) or {}).get("cls", "?")
+                self.fail("C09", "unrelated-entity-changed", opkind, cls, ",".join(parts),
+                          f"{cname}/{uid} ({cls}) changed parts {parts}; targets={sorted(targets)} parents={sorted(parents)}")
+                return
+            self.res.count("untouched_nodes_compared", n_other)
+
+    def check_uid_invariants(self, wd, opkind):
+        """C06 invariants over the live workspace."""
+        if "C06" not in self.props:
+            return
+        seen: dict = {}
+        for listing in ("groups", "objects", "data", "property_groups"):
+            for ent in getattr(wd.ws, listing):
+                key = str(ent.uid)
+                if key in seen:
+                    self.fail("C06", "uid-shared", opkind, type(ent).__name__, f"{seen[key]}+{listing}",
+                              f"uid {key} is owned by an entity in {seen[key]} and one in {listing}")
+                    return
+                seen[key] = listing
+        tseen = set()
+        for etype in wd.ws.types:
+            if str(etype.uid) in tseen:
+                self.fail("C06", "type-uid-shared", opkind, type(etype).__name__, "", f"two types share uid {etype.uid}")
+                return
+            tseen.add(str(etype.uid))
+        for uid, node in wd.nodes.items():
+            ent = wd.ws.get_entity(uuid.UUID(uid))
+            if len(ent) != 1 or ent[0] is None or not type(ent[0]).__name__.endswith(node["cls"]):
+                self.fail("C06", "lookup-wrong-owner", opkind, node["cls"], "",
+                          f"get_entity({uid}) -> {[type(e).__name__ for e in ent]} but the owner is a {node['cls']}")
+                return
+        # one type per object / group class
+        per_class: dict = {}
+        for uid, node in wd.nodes.items():
+            if wd.kind[uid] in ("group", "object") and isinstance(node.get("type"), dict) and node["cls"] != "CustomGroup":
+                per_class.setdefault(node["cls"], set()).add(node["type"]["uid"])
+        for cls, uids in per_class.items():
+            if len(uids) > 1:
+                self.fail("C06", "class-with-several-types", opkind, cls, "", f"entities of class {cls} use types {sorted(uids)}")
+                return
+
     def op_object(self, op):
         wd = self.w
         parent_uid = self.pick(wd.of_kind("group"), op["parent"])
@@ -477,6 +658,7 @@ class TreeRun:
         cls = F.get_class(op["cls"])
         kwargs = F.object_kwargs(op["cls"], op["geom"])
         given = {k: (v.copy() if isinstance(v, np.ndarray) else v) for k, v in kwargs.items()}
+        self.parents.add(parent_uid)
         new = self.call(op["cls"], cls.create, wd.ws, parent=parent, name=op["name"], **kwargs)
         uid = str(new.uid)
         node = snap_entity(new)
@@ -527,6 +709,7 @@ class TreeRun:
         if kind == "text":
             expected = [("" if v is None else f"s{v}") for v in vals]  # text arrays are stored as given (no padding rule)
         spec = F.data_spec(kind, assoc, arr)
+        self.parents.add(obj_uid)
         if "pg" in op and assoc != "OBJECT":
             new = self.call(kind, obj.add_data, {name: spec}, property_group=op["pg"])
         else:
@@ -592,6 +775,7 @@ class TreeRun:
             expected = [("" if v is None else f"s{v}") for v in vals]  # stored as given
         ent = wd.entity(uid)
         onfile = ent.on_file
+        self.targets.add(uid)
         try:
             ent.values = arr
         except Exception as exc:
@@ -612,6 +796,7 @@ class TreeRun:
         if uid is None:
             return False
         ent = wd.entity(uid)
+        self.targets.add(uid)
         self.call(wd.nodes[uid]["cls"], setattr, ent, "name", op["name"])
         wd.nodes[uid]["name"] = op["name"]
         self.touch()
@@ -625,6 +810,7 @@ class TreeRun:
         if uid is None:
             return False
         ent = wd.entity(uid)
+        self.targets.add(uid)
         self.call(wd.nodes[uid]["cls"], setattr, ent, op["flag"], op["value"])
         wd.nodes[uid][op["flag"]] = op["value"]
         self.touch()
@@ -640,6 +826,7 @@ class TreeRun:
         if uid is None:
             return False
         ent = wd.entity(uid)
+        self.targets.add(uid)
         self.call(wd.nodes[uid]["cls"], setattr, ent, "metadata", dict(op["value"]))
         cur = wd.nodes[uid].get("metadata")
         merged = dict(cur) if isinstance(cur, dict) else {}
@@ -657,6 +844,7 @@ class TreeRun:
             return False
         ent = wd.entity(uid)
         blob = bytes((v % 256) for v in op["blob"])
+        self.parents.add(uid)
         new = self.call("FilenameData", ent.add_file, blob, name=op["name"])
         nuid = str(new.uid)
         node = snap_entity(new)
@@ -702,8 +890,10 @@ class TreeRun:
         ent = wd.entity(uid)
         target = wd.entity(to)
         cls = wd.nodes[uid]["cls"]
-        self.call(cls, setattr, ent, "parent", target)
         old = wd.nodes[uid]["parent"]
+        self.targets.add(uid)
+        self.parents.update({old, to})
+        self.call(cls, setattr, ent, "parent", target)
         onode = wd.nodes[old]
         onode["children"] = sorted(c for c in onode["children"] if c != uid)
         onode["n_child_entries"] = len(onode["children"])
@@ -754,6 +944,7 @@ class TreeRun:
         if kind != "data":
             kwargs["copy_children"] = op["children"]
         kwargs["clear_cache"] = op["clear"]
+        self.parents.add(to)
         new = self.call(cls, src.copy, **kwargs)
         if new is None:
             self.fail("C12", "copy-returned-none", "copy", cls, "", "copy returned None")
@@ -868,6 +1059,7 @@ class TreeRun:
             self.removed_names[g] = wd.nodes[g].get("name")
         rich = bool(wd.descendants(uid)) or any(uid in pg["props"] for pg in (wd.nodes[node["parent"]].get("pgs") or {}).values())
         n_groups = sum(uid in pg["props"] for pg in (wd.nodes[node["parent"]].get("pgs") or {}).values())
+        self.parents.add(node["parent"])
         if op["via"] == "ws" and node.get("allow_delete") is not False and any(
                 wd.nodes[d].get("allow_delete") is False for d in wd.descendants(uid)):
             # removing an entity with a protected descendant: outcome not fixed by the statement
@@ -1012,6 +1204,7 @@ class TreeRun:
             return False  # adding data of another association to an existing group: not claimed valid
         obj = wd.entity(obj_uid)
         ents = [wd.entity(c) for c in chosen]
+        self.targets.add(obj_uid)
         self.call("PropertyGroup", obj.add_data_to_group, ents, op["name"])
         for c in chosen:
             self.sync_pgs(wd, obj_uid, obj, (op["name"], c, assoc.split(":")[1]), "pg_add")
@@ -1041,6 +1234,7 @@ class TreeRun:
             self.fail("C01", "pg-lost", "pg_remove_props", "PropertyGroup", "", f"property group {pg_uid} of the model not on the live object")
             return True
         ents = [wd.entity(c) for c in chosen]
+        self.targets.add(obj_uid)
         self.call("PropertyGroup", pg[0].remove_properties, ents)
         pg_model["props"] = [p for p in pg_model["props"] if p not in chosen]
         if not pg_model["props"]:
@@ -1061,6 +1255,7 @@ class TreeRun:
         if not pg:
             self.fail("C01", "pg-lost", "pg_delete", "PropertyGroup", "", f"property group {pg_uid} of the model not on the live object")
             return True
+        self.targets.add(obj_uid)
         self.call("PropertyGroup", wd.ws.remove_entity, pg[0])
         del wd.nodes[obj_uid]["pgs"][pg_uid]
         self.touch()
